@@ -8,7 +8,8 @@ for d in sorted(glob.glob('/verif/seeded/*/')):
     what=m.get('what','')
     first=m.get('detected_by_quick')
     later=m.get('detected_by_quick_after_strengthening')
-    if first: status='caught by quick'
+    if m.get('superseded'): status='superseded (no longer property-breaking after a repair, see meta.json)'
+    elif first: status='caught by quick'
     elif later: status='missed at first; caught after strengthening'
     else: status='NOT caught'
     key=''
